@@ -38,6 +38,8 @@ type Noti struct {
 	// (structured), "element" (deprecated strings), "both" (structured plus stray deprecated
 	// strings, which every reader must ignore when elem is present); "" = as the prefix.
 	// PrefixBoth: the prefix carries stray deprecated strings next to its structured elements.
+	// PathOrigin: an origin carried by the update/delete paths instead of the prefix (not generated, see genNoti).
+	PathOrigin string      `json:"path_origin,omitempty"`
 	PathEnc    string      `json:"path_enc,omitempty"`
 	PrefixBoth bool        `json:"prefix_both,omitempty"`
 	Updates    []Upd       `json:"updates,omitempty"`
@@ -217,6 +219,9 @@ func genNoti(t *rapid.T, thr int64, small bool) *Noti {
 	n.Share = rapid.IntRange(0, 3).Draw(t, "share") > 0
 	n.PathEnc = rapid.SampledFrom([]string{"", "", "", "", "", "", "elem", "element", "both"}).Draw(t, "pathenc")
 	n.PrefixBoth = rapid.IntRange(0, 9).Draw(t, "prefixboth") == 0
+	// PathOrigin is not drawn: for an update that carries its origin in Update.path the unchanged tree is
+	// itself inconsistent (stored and matched without the origin, deleted with it; cache_test.go pins the
+	// latter), see DESIGN.md 10.7 (7). The field stays so that such a scenario can be replayed by hand.
 	n.Prefix = genElems(t, 0, 2, false, small)
 	shape := rapid.IntRange(0, 9).Draw(t, "shape")
 	switch {
